@@ -79,3 +79,20 @@ def make(cls, v, as_fq=False):
     if len(v) == 1 and not hasattr(cls, "degree"):
         return cls(v[0])
     return cls(list(v))
+
+
+def derived_class(parent, p=None, mc=None, tag=""):
+    """A field class derived from another CONCRETE field class (shipped or ad hoc), overriding only the modulus coefficients
+    and/or the prime - the other documented way of instantiating the classes.  -> (class, Fld)"""
+    attrs = {}
+    deg = getattr(parent, "degree", 0) or 1
+    if mc is not None:
+        attrs["FQ2_MODULUS_COEFFS" if deg == 2 else "FQ12_MODULUS_COEFFS"] = tuple(mc)
+    if p is not None:
+        attrs["field_modulus"] = p
+    cls = type("Derived_%s%s" % (parent.__name__, tag), (parent,), attrs)
+    pp = p if p is not None else parent.field_modulus
+    if deg == 1:
+        return cls, Fld(pp)
+    mcc = tuple(mc) if mc is not None else tuple(int(getattr(c, "n", c)) for c in (parent.FQ2_MODULUS_COEFFS if deg == 2 else parent.FQ12_MODULUS_COEFFS))
+    return cls, Fld(pp, mcc)
